@@ -177,7 +177,19 @@ def _r2(ctx: Context, tree: str, N: Names, rule: str = "C05.R2") -> None:
             isinstance(s, ast.Assign) and const_name(s.value) in ("IDLE", "CLOSED") for s in state_stores(m))}
         if not recovering:
             raise AnalysisError(f"no recovering method located in {c.qual}")
-        is_rec = lambda n: node_calls(n, lambda call: (chain(call.func) or [""])[-1] in recovering and (chain(call.func) or [""])[0] == "self")
+        is_rec_call = lambda n: node_calls(n, lambda call: (chain(call.func) or [""])[-1] in recovering and (chain(call.func) or [""])[0] == "self")
+
+        def _decides_state(n) -> bool:
+            # the same decision written in place (a helper of a later version, expanded here): a test one of whose branches stores IDLE / CLOSED
+            if not isinstance(n.ast, ast.If):
+                return False
+            if any(isinstance(x, ast.Assign) and norm(x.targets[0]) == "self._state" and const_name(x.value) in ("IDLE", "CLOSED")
+                   for b in (n.ast.body, n.ast.orelse) for st_ in b for x in ast.walk(st_)):
+                return True
+            # ... or a test of the connection state itself that leads to a recovering call (`if self._state == NEW: close`): in the other case somebody else owns the state
+            return "self._state" in norm(n.ast.test) and any(isinstance(x, ast.Call) and (chain(x.func) or [""])[-1] in recovering and (chain(x.func) or [""])[0] == "self"
+                                                              for b in (n.ast.body, n.ast.orelse) for st_ in b for x in ast.walk(st_))
+        is_rec = lambda n: is_rec_call(n) or _decides_state(n)
         transient = _transient_states(ctx, c)
         init_state = [const_name(s.value) for s in state_stores(c.methods["__init__"]) if isinstance(s, ast.Assign)]
         entry_transient = bool(init_state) and init_state[0] in transient and init_state[0] != "ACTIVE"
